@@ -240,6 +240,9 @@ func run(p *props.Prop, args []string) int {
 			cmd.Stdout = of
 			cmd.Stderr = of
 			cmd.Env = append(os.Environ(), "GOTRACEBACK=all")
+			if p.Env != nil {
+				cmd.Env = append(cmd.Env, p.Env(k, nw, work)...)
+			}
 			err := cmd.Run()
 			r := wres{}
 			if err != nil {
@@ -272,6 +275,12 @@ func run(p *props.Prop, args []string) int {
 			// the worker died: name the input that was running
 			cfgName, input, ok := core.ReadSlot(filepath.Join(work, fmt.Sprintf("slot%d", k)))
 			tail := tailOf(filepath.Join(work, fmt.Sprintf("w%d.out", k)), 40)
+			if p.DeadWorkerIsViolation && (strings.Contains(tail, "fatal error:") || strings.Contains(tail, "panic:")) {
+				line := firstLine(grepLine(tail, "fatal error:", "panic:"))
+				viols = append(viols, &core.Violation{Property: p.ID, Class: "fatal-runtime-error", Locus: stripNums(line), Config: cfgName,
+					Detail: fmt.Sprintf("worker %d (exit %d) was killed by the Go runtime while goroutines shared an instance:\n%s", k, r.exit, trunc([]byte(tail), 3000)), Seed: seed, Tier: *tier, Count: 1})
+				continue
+			}
 			if ok {
 				v := confirmCrash(p, self, work, k, cfgName, input, r.exit, tail, seed, *tier)
 				if v != nil {
@@ -321,6 +330,9 @@ func run(p *props.Prop, args []string) int {
 		viols = append(viols, s.Violations...)
 	}
 	m.Distinct = len(sigs)
+	if p.Post != nil {
+		viols = append(viols, p.Post(work, m)...)
+	}
 
 	// group violations
 	groups := map[string]*core.Violation{}
@@ -548,4 +560,21 @@ func trunc(b []byte, n int) string {
 		return string(b[:n]) + "…"
 	}
 	return string(b)
+}
+
+func stripNums(s string) string {
+	var b strings.Builder
+	prev := false
+	for _, r := range s {
+		if r >= '0' && r <= '9' {
+			if !prev {
+				b.WriteByte('N')
+			}
+			prev = true
+			continue
+		}
+		prev = false
+		b.WriteRune(r)
+	}
+	return b.String()
 }
